@@ -3,8 +3,23 @@
 use std::net::{Ipv4Addr, Ipv6Addr};
 use wayfind::{errors::ConstraintError, Constraint, Router};
 
-#[path = "/repo/examples/oci/src/constraints/name.rs"]
-pub mod oci_name;
+#[cfg(feature = "ocisrc")]
+pub mod oci_name {
+    // the example's own source file, located by build.rs
+    include!(concat!(env!("OUT_DIR"), "/oci_name.rs"));
+}
+/// stand-in when the example's constraint is not where it used to be (feature `ocisrc` off): the name is then unknown to
+/// the harness, the `oci` suite cannot run, and C17 says so
+#[cfg(not(feature = "ocisrc"))]
+pub mod oci_name {
+    pub struct NameConstraint;
+    impl wayfind::Constraint for NameConstraint {
+        const NAME: &'static str = "name-unavailable";
+        fn check(_: &str) -> bool {
+            false
+        }
+    }
+}
 
 pub struct Alpha;
 impl Constraint for Alpha {
